@@ -561,7 +561,7 @@ def evidence(tier, seed, m, d):
              'up to 25 clientbound frames (sizes around threshold-1/'
              'threshold/threshold+1, unknown ids, up to 8 KiB) and up to 12 '
              'written packets, delivered as whole frames / 1-byte reads / '
-             'tape-chosen partitions / three long-paused cuts; 20% of the seeded scenarios run a second session with its own framing mode on the same Connection; evaluations = '
+             'tape-chosen partitions / three long-paused cuts; 20%% of the seeded scenarios run a second session with its own framing mode on the same Connection; evaluations = '
              'oracle obligations (one per expected packet and direction); '
              'non-trivial = at least one segmentation, short read or cut '
              'pause fired; distinct = distinct run digests' % SWEEP_STREAMS)
